@@ -77,8 +77,34 @@ def gen_plan(rng, progs):
     return ",".join(plan)
 
 
-def gen_cases(rng, n_seq, n_free):
+def gen_directed():
+    """every ordered pair of operation kinds (small / exact-fit / oversized emit, flush) with the first one holding the
+    lock while the second arrives, after a small metric has been buffered; each buffered sink, two capacities"""
     cases = []
+    for sink in ("S", "U", "X"):
+        for cap in (16, 40):
+            def emit(tid, j, n, direct):
+                base = "t%d.%d" % (tid, j)
+                if direct:
+                    suffix = ":1|g"
+                    return "E" + hx((base + "e" * max(0, n - len(base) - len(suffix)) + suffix).encode())
+                suffix = ":%d|c" % j
+                return "C" + hx((base + "k" * max(0, n - len(base) - len(suffix))).encode())
+            kinds = {"small": lambda t, j: emit(t, j, 7, False), "fit": lambda t, j: emit(t, j, cap - 1 - 8, True),
+                     "big": lambda t, j: emit(t, j, cap + 5, j % 2 == 0), "flush": lambda t, j: "F" if t == 0 else "f"}
+            for a in kinds:
+                for b in kinds:
+                    p0 = [emit(0, 0, 7, True), kinds[a](0, 1), emit(0, 2, 6, False)]
+                    p1 = [kinds[b](1, 0), emit(1, 1, 7, True)]
+                    # t0 buffers a small metric; then t0's [a] holds the lock while t1's [b] arrives; the rest in turn
+                    cases.append("C %s %d u seq 1 %s/%s 0,0+1,1,0" % (sink, cap, ",".join(p0), ",".join(p1)))
+                    # the other way round: t1's [b] holds while t0's [a] arrives
+                    cases.append("C %s %d u seq 1 %s/%s 0,1+0,1,0" % (sink, cap, ",".join(p0), ",".join(p1)))
+    return cases
+
+
+def gen_cases(rng, n_seq, n_free):
+    cases = gen_directed()
     # fixed ones first: every sink, contended hand-over at the exact fit
     cases.append("C S 16 u seq 1 C74302e61,C74302e62,F/C74312e61,E74312e783a317c63/C7432 0,1,2,0+1,1,0")
     cases.append("C U d u seq 1 C74302e61,C74302e62,F/C74312e61,E74312e783a317c63/C7432 0+1+2,0+1,0")
